@@ -101,6 +101,7 @@ def replay(body):
 def run(ctx):
     rng = ctx.rng
     ctx.check_theorems()
+    ctx.check_generated(['sstack', 'sfv'])
     # (K) model vs implementation: templates with negative values, offsets everywhere, several layers in any order
     cases, exprs = [], []
     for k in range(ctx.n(120, 1200)):
